@@ -425,7 +425,7 @@ ELEMFUNS = {
 class Unary(Family):
     """- + logical_not ones elemfun, c*S, c/S, S*ktensor."""
     name = "unary_and_reflected"
-    theorems = ("C03_neg", "C03_pos", "C03_not", "C03_ones", "C03_elemfun", "C03_mul_scalar", "C03_rdiv")
+    theorems = ("C03_neg", "C03_pos", "C03_not", "C03_ones", "C03_elemfun", "C03_mul_scalar", "C03_mul_kruskal", "C03_rdiv")
 
     def gen(self, rng, tier):
         out = []
